@@ -184,8 +184,8 @@ func (t *TrafBox) Info(w io.Writer, specificBoxLevels, indent, indentStep string
 func (t *TrafBox) OptimizeTfhdTrun() error {
 	tfhd := t.Tfhd
 	trun := t.Trun
-	if trun == nil {
-		return nil // No trun to optimize, e.g. track without samples in a multi-track fragment
+	if trun == nil || tfhd == nil {
+		return nil // Nothing to optimize, e.g. track without samples in a multi-track fragment
 	}
 	if len(trun.Samples) == 0 {
 		return errors.New("no samples in trun")
